@@ -20,7 +20,7 @@ from harness import tracecheck
 
 N = 12
 CFG = '\n'.join(['INIT MCInit', 'NEXT Next', 'VIEW View', 'CHECK_DEADLOCK FALSE',
-                 'INVARIANTS NeverFromMismatch RejectStage MatchedNeverRejected VerbatimOnMatch',
+                 'INVARIANTS NeverFromMismatch RejectStage MatchedNeverRejected VerbatimOnMatch ProbeRefused',
                  'ACTION_CONSTRAINT Edge', ''])
 
 
@@ -176,6 +176,27 @@ class OmegaAdapter(Adapter):
                 return {'ret': 'raises', '_class': type(ex).__name__}
             w['stage'] = was if was in ('built', 'evaluated') else 'calculated'
             return {'ret': self.verbatim(w, ret), '_k_untouched': bool(np.array_equal(k, w['k']))}
+        if act == 'Probe':
+            k = np.array(w['k'], dtype=float)
+            n = len(k)
+            kr = l['kRel']
+            if kr == 'onepoint':
+                i = int(w['rng'].choice([0, 1, n // 2, n - 2, n - 1])) % n
+                k[i] = k[i] * (1.0 + float(w['rng'].choice([3e-5, 1e-3]))) + 3e-8
+            elif kr == 'shifted':
+                k = k + (0.5 * (k[1] - k[0]) if w['rng'].random() < 0.5 else 3e-5 * k[0] + 3e-8)
+            elif kr == 'nan':
+                k[int(w['rng'].integers(0, n))] = np.nan
+            else:               # same first and last wavenumber, the same number of points, other values in between
+                t = np.linspace(0.0, 1.0, n)
+                k = k[0] + (k[-1] - k[0]) * t ** 1.25
+            obj = w['obj'] if w['sys'] is None else w['sys'].omega['A', 'A']
+            try:
+                with np.errstate(all='ignore'):
+                    ret = obj.calculate(k)
+            except Exception as ex:
+                return {'ret': 'raises', '_class': type(ex).__name__}
+            return {'ret': 'returned', '_probe': kr, '_max_dev': float(np.nanmax(np.abs(k - w['k'])))}
         if act == 'Build':
             return self.build(w)
         if act == 'Evaluate':
@@ -255,6 +276,9 @@ class OmegaAdapter(Adapter):
         if l['act'] in ('Calculate', 'Build') and obs.get('ret') in ('leaked', 'changed') and l.get('ret') == 'verbatim' \
                 and matched(obs['_w']['source']):       # VerbatimOnMatch speaks of matching data only
             out.append(('NoLeakFromCaller' if obs['ret'] == 'leaked' else 'VerbatimOnMatch', dict(obs['_w'], observed=obs['ret'])))
+        if l['act'] == 'Probe' and obs.get('ret') != 'raises':
+            out.append(('ProbeRefused', dict(obs['_w'], probe=obs.get('_probe'), max_k_deviation=obs.get('_max_dev'),
+                                             what='calculate(k) returned values for a k array that differs from the k column beyond the tolerance')))
         if l['act'] == 'Evaluate' and obs.get('ret') == 'nonfinite':
             out.append(('EvaluateFinite', {'observed': 'non-finite cost on matching data'}))
         if obs.get('_k_untouched') is False:
@@ -273,7 +297,7 @@ class OmegaWalker(NondetWalker):
         for k, outs in graph.out_list.items():
             d = {}
             for label, tk in outs:
-                if label['act'] == 'Regrid':
+                if label['act'] in ('Regrid', 'Probe'):
                     d.setdefault(key_of(label), (label, []))[1].append(tk)
                     continue
                 d.setdefault(label['act'], ({'act': label['act'], 'ret': 'verbatim' if label['act'] in ('Calculate', 'Build') else label.get('ret')}, []))[1].append(tk)
